@@ -14,6 +14,7 @@ Shapes understood (everything /repo/core/src/language/kotlin.rs can print, plus 
                                        @Serializable @SerialName("w") object V: Name<T>() }
 
 Extra (non-mandatory) keys this extractor adds:
+  top level: "string_templates": [{"line","text"}]   string literals containing an unescaped `$name` / `${`
   every def: "annotations": [str]        names of the annotations written in front of the definition
   struct / inline alias: "to_string": str|None   the string returned by an `override fun toString()` in the body
   inline alias: "inline": True, "private": bool, "nullable": bool, "default": str|None, "unwrap": bool
@@ -32,6 +33,18 @@ MAPS = {"HashMap", "Map", "MutableMap", "LinkedHashMap"}
 USE_SITE = {"file", "field", "get", "set", "param", "property", "receiver", "setparam", "delegate"}
 PARAM_MODIFIERS = {"private", "public", "internal", "protected", "override", "vararg", "open", "final"}
 CLASS_MODIFIERS = {"public", "internal", "private", "protected", "open", "final", "abstract", "inner", "expect", "actual"}
+
+
+def has_template(lit):
+    i = 1
+    while i < len(lit) - 1:
+        if lit[i] == "\\":
+            i += 2
+            continue
+        if lit[i] == "$" and (lit[i + 1] == "{" or lit[i + 1].isalpha() or lit[i + 1] == "_"):
+            return True
+        i += 1
+    return False
 
 
 def where(c):
@@ -231,6 +244,8 @@ def parse_params(c, owner):
                         "nullable": nullable, "default": default, "line": line,
                         "annotations": ann_names(anns), "private": "private" in mods})
         if not c.eat(","):
+            if c.kind() == "eof":
+                raise ExtractError(f"unclosed `(` in the constructor of `{owner}` (after parameter `{name}`, line {line})")
             if not c.at(")"):
                 raise ExtractError(f"expected `,` or `)` after parameter `{name}` of `{owner}` "
                                    f"but found `{c.text()}` at line {where(c)}")
@@ -314,8 +329,9 @@ def parse_enum(c, name, g, line, anns):
         if c.at("{"):
             raise ExtractError(f"enum entry `{vname}` has a body, line {vline}")
         sn = serial_name(vanns)
-        wires = ([sn] if sn is not None else []) + args
-        v = {"ident": vname, "wire": wires[0] if wires else vname, "payload": "unit", "line": vline,
+        # without @SerialName kotlinx.serialization uses the entry name on the wire
+        wires = [vname if sn is None else sn] + args
+        v = {"ident": vname, "wire": wires[0], "payload": "unit", "line": vline,
              "binding": "SerialName" if sn is not None else "bare", "annotations": ann_names(vanns)}
         if len(wires) > 1 and any(w != wires[0] for w in wires):
             v["wires"] = wires
@@ -338,6 +354,8 @@ def parse_super(c):
         if not c.at(")"):
             raise ExtractError(f"supertype constructor call with arguments at line {where(c)}")
         c.next()
+    if c.at(","):
+        raise ExtractError(f"more than one supertype at line {where(c)}")
     return ty
 
 
@@ -410,6 +428,8 @@ def extract(text):
         if k == "id" and ln != skip_line:
             used.add(t)
     obs["idents_used"] = sorted(used)
+    # a `$name` / `${` inside a Kotlin string literal is a template, not text: report them (raw fact, extra key)
+    obs["string_templates"] = [{"line": ln, "text": t} for k, t, ln in toks if k == "str" and has_template(t)]
 
     c = Cursor(toks)
     while not c.eof():
